@@ -460,7 +460,10 @@ template <class Fam, int Cat, int Style> struct rich_suite
           OP o = mk_op(a);
           OP const r = with_cat<Cat>(o, [&](auto &&x) { return fcppt::optional::alternative(std::forward<decltype(x)>(x), second); });
           CK(code(r) == (a != 0 ? a : b), sig("optional::alternative:result"), "got %s", show_opt(code(r)).c_str());
-          CK(p.is(a == 0, b), sig("optional::alternative:calls"), "%s", p.show().c_str());
+          if (a == 0)
+            CK(p.is(1, b), sig("optional::alternative:calls"), "%s", p.show().c_str());
+          else // laziness is not promised by the documentation -> information only
+            INFO_ONLY(p.calls == 0, "optional::alternative:second_called_although_first_set");
           if (Cat < 2)
             CK(code(o) == a, sig("optional::alternative:source_modified"), "lvalue source is now %s", show_opt(code(o)).c_str());
         }
@@ -752,8 +755,7 @@ template <class Fam, int Cat, int Style> struct rich_suite
              r.has_failure() ? show_seq(got, show_int).c_str() : "success");
         }
         for (std::size_t i = 0; i < s.size(); ++i)
-          CK(probes[i].calls == (i <= first ? 1 : 0), sig("either::first_success:calls"), "function %zu called %d times (first success at %zu)", i, probes[i].calls,
-             first);
+          INFO_ONLY(probes[i].calls == (i <= first ? 1 : 0), "either::first_success:calls"); // not fixed by the documentation
       }
     }
   }
